@@ -375,13 +375,28 @@ func c09Run(tp *core.Tape, e *core.Env) {
 		if pushAtAPIUp {
 			// the coordinator's next update (B) arrives the moment the restarted sidecar's API answers, and is
 			// refused (its Prometheus does not reload yet): what the sidecar then holds, and what a further
-			// restart resumes, is A (the last acknowledged) or B - never a mixture
+			// restart resumes, is A (the last acknowledged) or B - never a mixture. In file mode the
+			// simulator holds the start path's own Prometheus reload: a command that serves its API
+			// before it has finished starting is caught in the act (the real one serves last).
 			o2 := opt
 			o2.NoSettle = true
+			o2.HoldFirstReload = fileMode
 			s0 := sidecarsim.Start(o2)
+			early := fileMode && s0.Serving()
 			if s0.LoadErr != nil {
 				e.Violate("start-fails", "fault=none,level=command", "the sidecar command does not start over the store of acknowledged A: %v", s0.LoadErr)
 				return
+			}
+			if !early {
+				s0.ReleaseFirstReload()
+				sidecarsim.Settle()
+				if s0.LoadErr != nil {
+					e.Violate("start-fails", "fault=none,level=command", "the sidecar command does not start over the store of acknowledged A: %v", s0.LoadErr)
+					s0.Stop()
+					return
+				}
+			} else {
+				e.Probe("api_up_before_start_path_done")
 			}
 			s0.ReloadErr = fmt.Errorf("prometheus is still starting (injected)")
 			if !fileMode {
@@ -389,11 +404,14 @@ func c09Run(tp *core.Tape, e *core.Env) {
 			}
 			perr := s0.PostTargets(&shard.UpdateTargetsRequest{Targets: B})
 			s0.ReloadErr = nil
+			if early {
+				s0.ReleaseFirstReload()
+			}
 			sidecarsim.Settle()
 			e.Fault("refused_push_at_api_up")
 			got, err := served(s0)
 			if err != nil || (got != want(A) && got != want(B)) {
-				e.Violate("resumes-neither", "fault=refused_push_at_api_up,level=command", "update B refused (%v) right after the restarted sidecar's API came up: it now serves neither A nor B: err=%v\n serves %s\n      A %s\n      B %s", perr != nil, err, clip(got), clip(want(A)), clip(want(B)))
+				e.Violate("resumes-neither", "fault=refused_push_at_api_up,level=command", "update B refused (%v) right after the restarted sidecar's API came up (before its start path was done: %v): it now serves neither A nor B: err=%v\n serves %s\n      A %s\n      B %s", perr != nil, early, err, clip(got), clip(want(A)), clip(want(B)))
 				s0.Stop()
 				return
 			}
